@@ -135,6 +135,10 @@ def run(ctx):
     model = ctx.model
     names(ctx, model)
     bound_names(ctx, model)
+    from .common import ckl_returns_collection_param
+    ckl_returns_collection_param(ctx, model, "C19.fresh", "the result then has the kind and the duplicates of the "
+                                 "argument instead of being the collection the function defines (diff([1, 1, 2], []) "
+                                 "would be the list [1, 1, 2], not the set <<1, 2>>)")
     list_accumulators(ctx, model)
     # ---------------------------------------------------------------- pow
     fp = model.method(P, "FuncPow", "execute")
